@@ -29,33 +29,39 @@ func VerifC20MockTyping() {
 	verif.Assert("C20/mock/accepted", NewWithOptions(p, Options{GenerateMock: true}).Generate() == nil)
 	mock := c14Find(verif.Trace(p), "_http_mock.pb.go")
 	verif.Assert("C20/mock/file-emitted", mock != nil)
-	sel := ""
+	// the assigned expression: select<T>Example(...) possibly wrapped in a conversion
+	sel, conv := "", ""
 	for _, l := range mock.Lines {
-		if strings.HasPrefix(l, "resp.F1 = select") {
-			sel = l[len("resp.F1 = "):strings.Index(l, "(")]
+		if !strings.HasPrefix(l, "resp.F1 = ") {
+			continue
+		}
+		rhs := l[len("resp.F1 = "):]
+		for _, c := range []string{"int32", "float32"} {
+			if strings.HasPrefix(rhs, c+"(select") {
+				conv, rhs = c, rhs[len(c)+1:]
+			}
+		}
+		if strings.HasPrefix(rhs, "select") {
+			sel = rhs[:strings.Index(rhs, "(")]
 		}
 	}
 	verif.Show("selector", sel)
+	verif.Show("conversion", conv)
 	if sel == "" {
 		verif.Reach("C20/typing/no-selector-assignment")
 		return
 	}
 	singular := !a.list && !a.mp && !a.optional
-	ok := false
-	switch sel {
-	case "selectStringExample":
-		ok = singular && a.kind == protoreflect.StringKind
-	case "selectIntExample": // returns int64
-		ok = singular && a.kind == protoreflect.Int64Kind
-	case "selectBoolExample":
-		ok = singular && a.kind == protoreflect.BoolKind
-	case "selectFloatExample": // returns float64
-		ok = singular && a.kind == protoreflect.DoubleKind
+	// Go type of the assigned expression
+	exprType := map[string]string{"selectStringExample": "string", "selectIntExample": "int64", "selectBoolExample": "bool", "selectFloatExample": "float64"}[sel]
+	if conv != "" {
+		exprType = conv
 	}
+	fieldType := map[protoreflect.Kind]string{protoreflect.StringKind: "string", protoreflect.Int32Kind: "int32", protoreflect.Int64Kind: "int64",
+		protoreflect.BoolKind: "bool", protoreflect.FloatKind: "float32", protoreflect.DoubleKind: "float64"}[a.kind]
+	ok := singular && exprType != "" && exprType == fieldType
 	if singular && (a.kind == protoreflect.Int32Kind || a.kind == protoreflect.FloatKind) {
-		verif.Expect("KF-C20-mock-assigns-int64-or-float64-selector-to-32-bit-field", ok)
-		verif.Reach("C20/typing/kf-width")
-		return
+		verif.Reach("C20/typing/width") // region of the defect repaired in 1122cd4
 	}
 	if !singular {
 		verif.Expect("KF-C20-mock-assigns-scalar-selector-to-repeated-or-optional-field", ok)
